@@ -213,12 +213,60 @@ Qed.
 Definition is_checkin (a : action) : bool := match a with ACheckIn _ => true | _ => false end.
 Definition is_init_req (a : action) : bool := match a with ARequest _ true => true | _ => false end.
 
+(* ---- the batched commits of a visit's admitted children ---- *)
+Lemma flush_size_pos : (1 <= flush_size)%nat.
+Proof. unfold flush_size. apply le_n_S, Nat.le_0_l. Qed.
+
+Lemma chunks_In fuel : forall l k, In k (chunks fuel l) -> k <> [] /\ incl k l.
+Proof.
+  induction fuel as [|f IH]; intros l k H; cbn [chunks] in H; [destruct H|].
+  destruct l as [|x l']; [destruct H|]. destruct H as [<-|H].
+  - split.
+    + pose proof flush_size_pos as Pz. set (c := flush_size) in *. clearbody c. destruct c; [lia|]. cbn. discriminate.
+    + intros i Hi. rewrite <- (firstn_skipn flush_size (x :: l')). apply in_or_app. now left.
+  - destruct (IH _ _ H) as [N I]. split; [assumption|]. intros i Hi.
+    rewrite <- (firstn_skipn flush_size (x :: l')). apply in_or_app. right. now apply I.
+Qed.
+
+Lemma chunks_concat fuel : forall l, (length l <= fuel)%nat -> concat (chunks fuel l) = l.
+Proof.
+  induction fuel as [|f IH]; intros l H; cbn [chunks].
+  - destruct l; [reflexivity | cbn in H; lia].
+  - destruct l as [|x l']; [reflexivity|]. cbn [concat]. rewrite IH.
+    + apply firstn_skipn.
+    + rewrite skipn_length. pose proof flush_size_pos as Pz. cbn [length] in *.
+      set (c := flush_size) in *. clearbody c. lia.
+Qed.
+
+Lemma chunks_length fuel : forall l, (length (chunks fuel l) <= length l)%nat.
+Proof.
+  induction fuel as [|f IH]; intros l; cbn [chunks]; [cbn; lia|].
+  destruct l as [|x l']; [cbn; lia|]. cbn [length]. specialize (IH (skipn flush_size (x :: l'))).
+  rewrite skipn_length in IH. pose proof flush_size_pos as Pz. cbn [length] in *.
+  set (c := flush_size) in *. clearbody c. lia.
+Qed.
+
+Lemma flush_In l a : In a (flush l) -> exists k, a = AAddMany k /\ k <> [] /\ incl k l.
+Proof.
+  unfold flush. intros H. apply in_map_iff in H. destruct H as [k [<- Hk]]. exists k. split; [reflexivity|].
+  now apply (chunks_In (length l)).
+Qed.
+
+Lemma adds_of_map_addmany ks : adds_of (map AAddMany ks) = concat ks.
+Proof. induction ks as [|k ks IH]; cbn; [reflexivity | now rewrite IH]. Qed.
+
+Lemma adds_of_flush l : adds_of (flush l) = l.
+Proof. unfold flush. rewrite adds_of_map_addmany. apply chunks_concat. lia. Qed.
+
+Lemma flush_length l : (length (flush l) <= length l)%nat.
+Proof. unfold flush. rewrite map_length. apply chunks_length. Qed.
+
 Section Plan.
   Variable site : url -> page.
   Variable in_scope : bool -> url -> rinfo -> N -> bool.
 
   Lemma flush_no_checkin l : forallb (fun a => negb (is_checkin a)) (flush l) = true.
-  Proof. destruct l; reflexivity. Qed.
+  Proof. apply forallb_forall. intros a H. apply flush_In in H. destruct H as [k [-> _]]. reflexivity. Qed.
 
   Definition checked_in (s : status) : Prop := s = Done \/ s = Skipped \/ s = Error.
 
@@ -250,14 +298,14 @@ Section Plan.
   (* every URL a visit adds is an admitted link of a document it fetched *)
   Lemma fetch_adds_in fuel : forall p tries u ini k,
     In (AAddMany k) (fetch site in_scope fuel p tries u ini) ->
-    exists f code links, site f = Doc code links /\ k = children in_scope p f links.
+    exists f code links, site f = Doc code links /\ incl k (children in_scope p f links).
   Proof.
     induction fuel as [|f IH]; intros p tries u ini k H; cbn [fetch] in H;
       destruct (site u) as [code links|code|code|code [t|]] eqn:S.
     all: try (destruct H as [H|[H|H]]; try discriminate;
               apply in_app_or in H; destruct H as [H|[H|[]]]; [|discriminate];
-              destruct (children in_scope p u links) eqn:C; cbn in H; [contradiction|];
-              destruct H as [H|[]]; inversion H; subst k; exists u, code, links; split; [assumption | now rewrite C]).
+              apply flush_In in H; destruct H as [k' [E [_ I]]]; inversion E; subst k';
+              exists u, code, links; split; assumption).
     all: try (destruct H as [H|[H|[H|[]]]]; discriminate).
     all: try (destruct H as [H|[H|[]]]; discriminate).
     destruct H as [H|[H|H]]; try discriminate.
@@ -266,7 +314,7 @@ Section Plan.
 
   Lemma plan_adds_in maxredir p tries k :
     In (AAddMany k) (plan site in_scope maxredir p tries) ->
-    exists f code links, site f = Doc code links /\ k = children in_scope p f links.
+    exists f code links, site f = Doc code links /\ incl k (children in_scope p f links).
   Proof.
     unfold plan. destruct (in_scope false (ri_url p) p tries); [apply fetch_adds_in|].
     intros [H|[]]; discriminate.
@@ -281,8 +329,8 @@ Section Plan.
   Lemma plan_adds_level maxredir p tries k i :
     In (AAddMany k) (plan site in_scope maxredir p tries) -> In i k -> ri_level i <> 0.
   Proof.
-    intros H Hi. destruct (plan_adds_in _ _ _ _ H) as [f [code [links [_ ->]]]].
-    apply children_level in Hi. lia.
+    intros H Hi. destruct (plan_adds_in _ _ _ _ H) as [f [code [links [_ I]]]].
+    apply I, children_level in Hi. lia.
   Qed.
 
   (* the initial request, if any, is the first action and goes to the item's own URL *)
@@ -293,7 +341,7 @@ Section Plan.
       destruct (site u) as [code links|code|code|code [t|]].
     all: try (destruct H as [<-|[<-|H]]; try reflexivity;
               apply in_app_or in H; destruct H as [H|[<-|[]]]; [|reflexivity];
-              destruct (children in_scope p u links); cbn in H; [contradiction|destruct H as [<-|[]]; reflexivity]).
+              apply flush_In in H; destruct H as [k' [-> _]]; reflexivity).
     all: try (destruct H as [<-|[<-|[<-|[]]]]; reflexivity).
     all: try (destruct H as [<-|[<-|[]]]; reflexivity).
     destruct H as [<-|[<-|H]]; try reflexivity.
@@ -306,7 +354,7 @@ Section Plan.
     destruct fuel as [|f]; cbn [fetch tl]; destruct (site u) as [code links|code|code|code [t|]]; intros H.
     all: try (destruct H as [<-|H]; try reflexivity;
               apply in_app_or in H; destruct H as [H|[<-|[]]]; [|reflexivity];
-              destruct (children in_scope p u links); cbn in H; [contradiction|destruct H as [<-|[]]; reflexivity]).
+              apply flush_In in H; destruct H as [k' [-> _]]; reflexivity).
     all: try (destruct H as [<-|[<-|[]]]; reflexivity).
     all: try (destruct H as [<-|[]]; reflexivity).
     destruct H as [<-|H]; try reflexivity.
